@@ -168,6 +168,11 @@ def densities(cls_obj, P):
     combis = cls_obj.get_density_estimation_results()[0]
     D = np.zeros((len(P), len(combis)))
     with capture():
+        if len(P) > 60:     # large anchor cases: batches of 97 points per class (never the whole array at once)
+            for a in range(0, len(P), 97):
+                for k, cb in enumerate(combis):
+                    D[a:a + 97, k] = np.asarray(cb(np.array(P[a:a + 97], dtype=float))).ravel()
+            return D
         for i in range(len(P)):
             for k, cb in enumerate(combis):
                 D[i, k] = float(np.asarray(cb(np.array([P[i]], dtype=float))).ravel()[0])
@@ -209,6 +214,16 @@ def rows_of(ds, d):
     return [tuple(float(v) for v in X[i]) + (float(yl[i]),) for i in range(len(X))]
 
 
+def rows_of_list(rows, cobj, d):
+    """expected testing rows compared exactly against what is stored now (they were verified to 1e-9 when they were stored)"""
+    now = rows_of(cobj.get_testing_data(), d)
+    ok = len(now) == len(rows) and all(now[i][-1] == rows[i][-1] and np.all(np.abs(np.array(now[i][:-1]) - np.array(rows[i][:-1])) <= 1e-9) for i in range(len(rows)))
+    return now if ok else None
+
+
+STATS = {"refined": 0, "reclassified": 0}
+
+
 # ------------------------------------------------------------------------------------------- one case
 def run_case(ctx, case):
     from sparseSpACE.DEMachineLearning import DataSet, Classification
@@ -234,7 +249,7 @@ def run_case(ctx, case):
     else:
         learn = lambda: cobj.perform_classification_dimension_wise(masslumping=lk["ml"], lambd=lk["lambd"], minimum_level=1, maximum_level=lk["lmax"],
                                                                    max_evaluations=lk["evals"], reuse_old_values=lk["reuse"], rebalancing=lk["rebal"],
-                                                                   print_metrics=False)
+                                                                   tolerance=lk.get("tol", 0.01), print_metrics=False)
     ok, _, _ = guarded(ctx, d, "B.learn.completes", M + ("perform_classification" if lk["mode"] == "std" else "perform_classification_dimension_wise"),
                        "learning-raises", learn)
     if not ok:
@@ -279,7 +294,12 @@ def run_case(ctx, case):
     n_tests = 0
     calls = []                                                # (Q, labels, inside, classes, densities) of earlier __call__ operations
 
-    def do_call(Q, lab, inside, first, from_learning=False):
+    reports = []      # (description, live object handed to the caller, deep copy taken at report time, comparison function)
+
+    def same_dataset(a, b):
+        return all(np.array_equal(np.asarray(u), np.asarray(v)) for u, v in zip(a.get_data(), b))
+
+    def do_call(Q, lab, inside, first, from_learning=False, tag="call-repeat"):
         """__call__ on a fresh DataSet; returns classes or None"""
         site = M + "__call__"
         before = np.asarray(cobj.get_calculated_classes_testset(), dtype=float)
@@ -314,11 +334,33 @@ def run_case(ctx, case):
         if 0 < n_out and first:
             txt = text.lower()
             ctx.check("B.range.reported", ("remov" in txt) or ("out of bounds" in txt), site, "no-report", "nothing reported for %d removed samples" % n_out)
-        D = check_argmax(ctx, cobj, P, got_c, site, "call" if first else "call-repeat")
+        D = check_argmax(ctx, cobj, P, got_c, site, "call" if first else tag)
+        if first:
+            reports.append(("DataSet returned by __call__", out, tuple(np.array(a, copy=True) for a in out.get_data()), same_dataset))
         after = np.asarray(cobj.get_calculated_classes_testset(), dtype=float)
         ctx.check("B.history.stable", len(after) == len(before) and bool(np.all(after == before)), site, "testset-classes-changed-by-call",
                   "calculated test classes changed by __call__")
         return got_c, D, P
+
+    def do_evaluate(site, wcl):
+        res = None
+        out_of_step = n_tests and cobj.get_testing_data().get_length() != len(cobj.get_calculated_classes_testset())
+        with ctx.guard(*(("B.history.bookkeeping", site, "testing-data-not-extended") if out_of_step else ("B.test.summary", site, wcl + "-raises"))):
+            with capture():
+                res = cobj.evaluate()
+        if res is None:
+            return
+        cl = np.asarray(cobj.get_calculated_classes_testset(), dtype=float)
+        tl = np.array([r_[-1] for r_ in exp_T])
+        wrong = int(np.sum(cl != tl)) if len(cl) == len(tl) else -1
+        oks = res.get("Total mappings") == len(tl) and res.get("Wrong mappings") == wrong and abs(res.get("Percentage correct", -9) - (1.0 - wrong / len(tl))) <= 1e-12
+        ctx.check("B.test.summary", oks, site, wcl, "evaluate() returned %s, expected wrong=%d total=%d" % (res, wrong, len(tl)))
+        with capture():
+            res2 = cobj.evaluate()                          # idempotence of the query
+        same = all(res2.get(k_) == res.get(k_) for k_ in ("Wrong mappings", "Total mappings", "Percentage correct"))
+        ctx.check("B.test.summary", same, site, wcl + "-second-query-differs", "evaluate() twice: %s then %s" % (res, res2))
+        reports.append(("summary returned by evaluate()", res, {k_: res[k_] for k_ in ("Wrong mappings", "Total mappings", "Percentage correct")},
+                        lambda a, b: all(a.get(k_) == b[k_] for k_ in b)))
 
     for op in case["seq"]:
         kind = op["op"]
@@ -327,12 +369,12 @@ def run_case(ctx, case):
         if kind == "call":
             r = do_call(Q, lab, inside, True)
             if r is not None:
-                calls.append((Q, lab, inside, r[0], r[1], r[2], False))
+                calls.append({"Q": Q, "lab": lab, "inside": inside, "c": r[0], "D": r[1], "fl": False})
         elif kind == "call_learning":
             Lr = np.array([r_[:-1] for r_ in learn_rows])
             r = do_call(Lr, np.array([int(r_[-1]) for r_ in learn_rows]), np.ones(len(Lr), dtype=bool), True, from_learning=True)
             if r is not None:
-                calls.append((Lr, None, np.ones(len(Lr), dtype=bool), r[0], r[1], r[2], True))
+                calls.append({"Q": Lr, "lab": None, "inside": np.ones(len(Lr), dtype=bool), "c": r[0], "D": r[1], "fl": True})
         elif kind == "test":
             site = M + "test_data"
             before = np.asarray(cobj.get_calculated_classes_testset(), dtype=float)
@@ -375,6 +417,10 @@ def run_case(ctx, case):
             oks = isinstance(res, dict) and res.get("Total mappings") == len(U) and res.get("Wrong mappings") == wrong \
                 and abs(res.get("Percentage correct", -9) - (1.0 - wrong / len(U))) <= 1e-12
             ctx.check("B.test.summary", oks, site, "summary", "returned %s, expected wrong=%d total=%d" % (res, wrong, len(U)))
+            if isinstance(res, dict):
+                reports.append(("summary returned by test_data", res, {k_: res.get(k_) for k_ in ("Wrong mappings", "Total mappings", "Percentage correct")},
+                                lambda a, b: all(a.get(k_) == b[k_] for k_ in b)))
+            reports.append(("classes returned by get_calculated_classes_testset()", after, np.array(after, copy=True), lambda a, b: np.array_equal(a, b)))
             exp_T += [tuple(PU[j]) + (float(lab[U[j]]),) for j in range(len(U))]
             exp_omitted += int(np.sum(lab[I] == -1))
             classes = after
@@ -393,22 +439,38 @@ def run_case(ctx, case):
             if not len(exp_T):
                 continue          # nothing to evaluate: the documented ValueError, outside the property
             site, wcl = (M + "test_data", "evaluate-after-test_data") if n_tests else (M + "evaluate", "initial-split")
-            res = None
-            out_of_step = n_tests and cobj.get_testing_data().get_length() != len(cobj.get_calculated_classes_testset())
-            with ctx.guard(*(("B.history.bookkeeping", site, "testing-data-not-extended") if out_of_step else ("B.test.summary", site, wcl + "-raises"))):
-                with capture():
-                    res = cobj.evaluate()
-            if res is not None:
-                cl = np.asarray(cobj.get_calculated_classes_testset(), dtype=float)
-                tl = np.array([r_[-1] for r_ in exp_T])
-                wrong = int(np.sum(cl != tl)) if len(cl) == len(tl) else -1
-                oks = res.get("Total mappings") == len(tl) and res.get("Wrong mappings") == wrong and abs(res.get("Percentage correct", -9) - (1.0 - wrong / len(tl))) <= 1e-12
-                ctx.check("B.test.summary", oks, site, wcl, "evaluate() returned %s, expected wrong=%d total=%d" % (res, wrong, len(tl)))
+            do_evaluate(site, wcl)
+        elif kind == "refine":
+            if lk["mode"] != "dim":
+                continue
+            site = M + "continue_dimension_wise_refinement"
+            pts0 = cobj.get_number_of_sparse_grid_points()
+            ok, _, _ = guarded(ctx, d, "B.learn.completes", site, "continue-raises",
+                               lambda: cobj.continue_dimension_wise_refinement(tolerance=lk.get("tol", 0.01), max_evaluations=op["evals"]))
+            if not ok:
+                return
+            STATS["refined"] += int(cobj.get_number_of_sparse_grid_points() > pts0)
+            # the stored test classes, the summary and every re-evaluated sample must reflect the estimators the object holds NOW
+            cl = np.asarray(cobj.get_calculated_classes_testset(), dtype=float)
+            ctx.check("B.history.bookkeeping", len(cl) == len(exp_T) and rows_of(cobj.get_testing_data(), d) == rows_of_list(exp_T, cobj, d), site,
+                      "testing-data-after-refinement", "%d classes / changed testing data for %d testing samples after the refinement" % (len(cl), len(exp_T)))
+            if len(exp_T) and len(cl) == len(exp_T):
+                check_argmax(ctx, cobj, np.array([r_[:-1] for r_ in exp_T]), cl, site, "stored-test-classes-after-refinement")
+                do_evaluate(site, "evaluate-after-refinement")
+            for c_ in calls:
+                r = do_call(c_["Q"], c_["lab"] if c_["lab"] is not None else np.zeros(len(c_["Q"]), dtype=np.int64), c_["inside"], False,
+                            from_learning=c_["fl"], tag="call-after-refinement")
+                if r is not None:
+                    STATS["reclassified"] += int(np.sum(r[0] != c_["c"]))
+                    c_["c"], c_["D"] = r[0], r[1]          # new baseline: the estimators changed legitimately
+        elif kind == "other":
+            run_case(ctx, op["sub"])                        # a second, differently configured object is built, trained and used in between
         else:
             raise ValueError(kind)
 
     # ---- history: earlier __call__ data evaluated again, densities unchanged
-    for (Q, lab, inside, c0, D0, P, from_learning) in calls:
+    for c_ in calls:
+        Q, lab, inside, c0, D0, from_learning = c_["Q"], c_["lab"], c_["inside"], c_["c"], c_["D"], c_["fl"]
         r = do_call(Q, lab if lab is not None else np.zeros(len(Q), dtype=np.int64), inside, False, from_learning=from_learning)
         if r is None:
             ctx.check("B.history.stable", False, M + "__call__", "repeat-failed", "earlier data could not be evaluated again")
@@ -416,10 +478,14 @@ def run_case(ctx, case):
         ctx.check("B.history.stable", len(r[0]) == len(c0) and bool(np.all(r[0] == c0)), M + "__call__", "classes-changed", "classes of earlier data changed: %s -> %s" % (c0, r[0]))
         ctx.check("B.history.stable", r[1].shape == D0.shape and bool(np.all(np.abs(r[1] - D0) <= 1e-12 * (1 + np.abs(D0)))), M + "__call__", "densities-changed",
                   "per-class densities at earlier positions changed")
+    # ---- report stability: everything handed to the caller earlier (kept WITHOUT copying) still equals the copy taken at report time
+    for what, live, frozen, eq in reports:
+        ctx.check("B.history.stable", bool(eq(live, frozen)), M + "__call__" if "__call__" in what else M + "test_data", "reported-value-changed-later",
+                  "%s changed after later operations" % what)
 
 
 # ------------------------------------------------------------------------------------------- generation
-def gen_case(rng, quick):
+def gen_case(rng, quick, allow_other=True):
     d = rng.choice([1, 2, 2, 2, 2, 3, 3])
     K = rng.choice([2, 2, 3])
     mode = rng.choice(["std", "std", "dim"])
@@ -427,11 +493,16 @@ def gen_case(rng, quick):
         learn = {"mode": "std", "lmax": rng.choice([2, 3, 3, 4] if d < 3 else [2, 3]), "ml": rng.random() < 0.7, "lambd": rng.choice([0.0, 0.0, 0.01])}
     else:
         learn = {"mode": "dim", "lmax": rng.choice([2, 2, 3]), "ml": rng.random() < 0.7, "lambd": rng.choice([0.0, 0.0, 0.01]),
-                 "evals": rng.choice([20, 40, 80]), "reuse": rng.random() < 0.3, "rebal": rng.random() < 0.3}
+                 "evals": rng.choice([20, 20, 40, 80]), "reuse": rng.random() < 0.3, "rebal": rng.random() < 0.3, "tol": rng.choice([0.0, 0.0, 0.01])}
     seq = []
-    for _ in range(rng.randint(1, 5)):
-        kind = rng.choices(["call", "test", "evaluate", "call_learning"], weights=[4, 5, 2, 0.6])[0]
+    for _ in range(rng.randint(1, 5) if allow_other else 1):
+        kind = rng.choices(["call", "test", "evaluate", "call_learning", "refine", "other"],
+                           weights=[4, 5, 2, 0.6, 2.5 if mode == "dim" else 0, 0.5 if allow_other else 0])[0]
         op = {"op": kind}
+        if kind == "refine":
+            op["evals"] = rng.choice([60, 120, 200])
+        if kind == "other":
+            op["sub"] = gen_case(rng, quick, allow_other=False)
         if kind in ("call", "test"):
             op.update({"where": rng.choice(["in", "in", "part", "part", "part", "out"]), "m": rng.randint(1, 10), "unl": rng.random() < 0.4,
                        "qseed": rng.randrange(2 ** 31)})
@@ -456,6 +527,10 @@ def directed():
          {"op": "call_learning"}],
         [{"op": "test", "where": "in", "m": 10, "unl": True, "qseed": 26, "print": True}, {"op": "evaluate"}],
     ]
+    # history with continued dimension-wise refinement: everything evaluated before must be re-evaluated against the refined estimators
+    refine_seq = [{"op": "call", "where": "in", "m": 10, "unl": False, "qseed": 31}, {"op": "test", "where": "part", "m": 10, "unl": True, "qseed": 32, "print": False},
+                  {"op": "call_learning"}, {"op": "evaluate"}, {"op": "refine", "evals": 200}, {"op": "evaluate"},
+                  {"op": "test", "where": "in", "m": 8, "unl": False, "qseed": 33, "print": False}, {"op": "refine", "evals": 400}, {"op": "evaluate"}]
     out = []
     for variant in range(7):
         for s in seqs:
@@ -473,6 +548,18 @@ def directed():
             elif variant == 6:
                 c.update({"d": 1})
             out.append(c)
+    for k, (dd, K, sep) in enumerate([(2, 2, "overlap"), (2, 3, "overlap"), (3, 2, "overlap"), (1, 2, "overlap"), (2, 2, "separated")]):
+        out.append(dict(base, d=dd, K=K, n=[30, 26, 28][:K], sep=sep, seed=100 + k, p=0.6, unl=False, seq=refine_seq,
+                        learn={"mode": "dim", "lmax": 2, "ml": k % 2 == 0, "lambd": 0.01, "evals": 20, "reuse": k == 1, "rebal": k == 2, "tol": 0.0}))
+    # anchors: a query of 5000 samples (batch sizes / chunking inside the library), component grids with more than 200 points (other interpolation branch),
+    # a second object interleaved
+    out.append(dict(base, seq=[{"op": "call", "where": "in", "m": 5000, "unl": False, "qseed": 41}, {"op": "test", "where": "part", "m": 4500, "unl": True, "qseed": 42, "print": False},
+                               {"op": "evaluate"}]))
+    out.append(dict(base, learn={"mode": "std", "lmax": 8, "ml": True, "lambd": 0.0},
+                    seq=[{"op": "call", "where": "part", "m": 10, "unl": False, "qseed": 43}, {"op": "evaluate"}]))
+    out.append(dict(base, seq=[{"op": "call", "where": "in", "m": 6, "unl": False, "qseed": 44},
+                               {"op": "other", "sub": dict(base, seed=12, K=3, n=[14, 15, 16], d=3, sep="overlap", p=1.0, seq=[{"op": "call", "where": "in", "m": 5, "unl": False, "qseed": 45}])},
+                               {"op": "test", "where": "in", "m": 6, "unl": False, "qseed": 46, "print": False}, {"op": "evaluate"}]))
     return out
 
 
@@ -480,7 +567,8 @@ def run(ctx):
     for case in directed():
         ctx.case(case)
         run_case(ctx, case)
-    n = 180 if ctx.quick() else 5000
+    ctx.note("directed refinement histories: %d refinements added grid points, %d earlier classes changed through refinement" % (STATS["refined"], STATS["reclassified"]))
+    n = 150 if ctx.quick() else 4500
     for k in range(n):
         if ctx.out_of_time(0.8):
             ctx.note("stopped after %d random cases (time)" % k)
